@@ -1,4 +1,349 @@
-(* C12 placeholder while the proofs are being written *)
-From Coq Require Import List NArith.
-From Mant Require Import Model.Rc4Go Model.CmacGo Model.Pkcs7 Model.Gppp.
-Example C12_placeholder : 1 = 1. Proof. reflexivity. Qed.
+(* C12 — RC4, CMAC, PKCS#7 and GPP-AES match their standards and invert each other.
+   Statements only; proofs are in Proofs/C12Rc4.v, C12Cmac.v, C12Pkcs7.v, C12Gppp.v, C12Main.v.
+   Models: Model/Rc4Go.v (crypto/rc4), Model/CmacGo.v (crypto/cmac), Model/Pkcs7.v (crypto/pkcs7),
+   Model/Gppp.v (crypto/gppp); references: Algo/RC4.v, Algo/CMAC.v, Algo/AES.v, Spec/C12.v. *)
+From Coq Require Import String.
+From Coq Require Import List Arith NArith Lia.
+From Mant Require Import Prim.R Prim.Bytes Algo.Word Algo.AES Algo.DES Algo.RC4 Algo.CMAC Algo.Base64 Algo.Utf16 Algo.Utf8 Algo.Hex.
+From Mant Require Import Model.Rc4Go Model.CmacGo Model.Pkcs7 Model.Gppp Gen.ConstsC12 Spec.C12.
+From Mant Require Import Proofs.C12Rc4 Proofs.C12Cmac Proofs.C12Pkcs7 Proofs.C12Gppp Proofs.C12Main.
+Import ListNotations.
+Open Scope N_scope.
+
+(* ================================================================== *)
+(* RC4                                                                 *)
+
+(* For every key of 1..256 bytes NewRC4WithKey succeeds and XORKeyStream produces standard RC4
+   (the code's uint8 wrap-around arithmetic is the algorithm's arithmetic mod 256), for every
+   data string. *)
+Theorem C12_rc4_spec : forall key data,
+  (1 <= length key <= 256)%nat ->
+  exists st, rc4go_new key = Ok st /\ fst (rc4go_xks st data) = rc4 key data.
+Proof. exact rc4go_spec. Qed.
+Print Assumptions C12_rc4_spec.
+
+(* Exactly the key sizes 1..256 are accepted. *)
+Theorem C12_rc4_keysize : forall key,
+  (exists st, rc4go_new key = Ok st) <-> (1 <= length key <= 256)%nat.
+Proof. exact rc4go_keysize. Qed.
+Print Assumptions C12_rc4_keysize.
+
+(* XORKeyStream is a stream: one call on a ++ b is a call on a followed by a call on b —
+   same bytes, same final state — from ANY cipher state. *)
+Theorem C12_rc4_chunking : forall st a b,
+  rc4go_xks st (a ++ b) =
+  let '(o1, st1) := rc4go_xks st a in
+  let '(o2, st2) := rc4go_xks st1 b in
+  (o1 ++ o2, st2).
+Proof. exact rc4go_xks_app. Qed.
+Print Assumptions C12_rc4_chunking.
+
+(* Hence every way of splitting the data across any number of calls gives standard RC4. *)
+Theorem C12_rc4_chunking_all : forall key chunks,
+  (1 <= length key <= 256)%nat ->
+  exists st, rc4go_new key = Ok st /\ fst (rc4go_stream st chunks) = rc4 key (stream_of chunks).
+Proof. exact rc4go_stream_spec. Qed.
+Print Assumptions C12_rc4_chunking_all.
+
+Theorem C12_rc4_stream_state : forall st chunks,
+  rc4go_stream st chunks = rc4go_xks st (stream_of chunks).
+Proof. exact rc4go_stream_concat. Qed.
+Print Assumptions C12_rc4_stream_state.
+
+(* Decryption is encryption: from the same state the transformation is an involution. *)
+Theorem C12_rc4_involutive : forall st data,
+  fst (rc4go_xks st (fst (rc4go_xks st data))) = data.
+Proof. exact rc4go_involutive. Qed.
+Print Assumptions C12_rc4_involutive.
+
+(* XORKeyStream(dst, src) panics exactly when dst is shorter than src and otherwise leaves the
+   tail of dst untouched. *)
+Theorem C12_rc4_dst : forall st dst src,
+  rc4go_xks_dst st dst src =
+  if (length dst <? length src)%nat then Panic
+  else Ok (fst (rc4go_xks st src) ++ skipn (length src) dst, snd (rc4go_xks st src)).
+Proof. exact rc4go_xks_dst_spec. Qed.
+Print Assumptions C12_rc4_dst.
+
+(* ================================================================== *)
+(* CMAC — for EVERY block cipher E with block size n whose Encrypt maps n-byte blocks to
+   n-byte blocks of bytes (the two hypotheses; they hold for AES and DES, see below).       *)
+
+(* New derives the subkeys K1, K2 of SP 800-38B 6.1 (byte-wise shift = doubling in GF(2^b)). *)
+Theorem C12_cmac_new : forall (E : list N -> list N) (n : nat),
+  n = 8%nat \/ n = 16%nat ->
+  (forall x, length x = n -> length (E x) = n) ->
+  (forall x, length x = n -> wf_bytes x -> wf_bytes (E x)) ->
+  cm_new E n = Ok (mk_cmst (fst (cmac_subkeys E n)) (snd (cmac_subkeys E n)) (zeros n) (zeros n) 0).
+Proof. exact cm_new_spec. Qed.
+Print Assumptions C12_cmac_new.
+
+(* … and panics for any other block size. *)
+Theorem C12_cmac_new_panics : forall E n, n <> 8%nat -> n <> 16%nat -> cm_new E n = Panic.
+Proof. exact cm_new_bad_size. Qed.
+Print Assumptions C12_cmac_new_panics.
+
+(* MAIN: after ANY history of Write / Sum / Reset calls on a fresh object, Sum(in) returns
+   in ++ CMAC_E(bytes written since the last Reset), CMAC as defined by RFC 4493 / SP 800-38B.
+   This single statement contains: every message, every write-chunking, independence from
+   earlier Sum calls, and Reset. *)
+Theorem C12_cmac : forall (E : list N -> list N) (n : nat),
+  (forall x, length x = n -> length (E x) = n) ->
+  (forall x, length x = n -> wf_bytes x -> wf_bytes (E x)) ->
+  forall d0 ops inp,
+  cm_new E n = Ok d0 ->
+  fst (cm_sum E (cm_run E d0 ops) inp) = inp ++ cmac_spec E n (written ops).
+Proof. exact cmac_stream_spec. Qed.
+Print Assumptions C12_cmac.
+
+(* every way of cutting a message into Write calls *)
+Theorem C12_cmac_chunking : forall (E : list N -> list N) (n : nat),
+  (forall x, length x = n -> length (E x) = n) ->
+  (forall x, length x = n -> wf_bytes x -> wf_bytes (E x)) ->
+  forall d0, cm_new E n = Ok d0 ->
+  forall chunks inp,
+  fst (cm_sum E (cm_run E d0 (map OpWrite chunks)) inp) = inp ++ cmac_spec E n (stream_of chunks).
+Proof. exact cmac_chunking. Qed.
+Print Assumptions C12_cmac_chunking.
+
+(* Sum does not modify k1, k2, ci, p (it works in the scratch buffer digest) — any state. *)
+Theorem C12_cmac_sum_pure : forall E d inp,
+  let d' := snd (cm_sum E d inp) in
+  cm_k1 d' = cm_k1 d /\ cm_k2 d' = cm_k2 d /\ cm_ci d' = cm_ci d /\ cm_p d' = cm_p d.
+Proof. exact cmac_sum_pure. Qed.
+Print Assumptions C12_cmac_sum_pure.
+
+(* … so an earlier Sum, anywhere in the history, with any argument, is invisible later. *)
+Theorem C12_cmac_sum_invisible : forall (E : list N -> list N) (n : nat),
+  (forall x, length x = n -> length (E x) = n) ->
+  (forall x, length x = n -> wf_bytes x -> wf_bytes (E x)) ->
+  forall d0, cm_new E n = Ok d0 ->
+  forall ops1 inp' ops2 inp,
+  fst (cm_sum E (cm_run E d0 (ops1 ++ OpSum inp' :: ops2)) inp) =
+  fst (cm_sum E (cm_run E d0 (ops1 ++ ops2)) inp).
+Proof. exact cmac_sum_invisible. Qed.
+Print Assumptions C12_cmac_sum_invisible.
+
+(* After Reset the object answers like a fresh one. *)
+Theorem C12_cmac_reset : forall (E : list N -> list N) (n : nat),
+  (forall x, length x = n -> length (E x) = n) ->
+  (forall x, length x = n -> wf_bytes x -> wf_bytes (E x)) ->
+  forall d0, cm_new E n = Ok d0 ->
+  forall ops1 ops2 inp,
+  fst (cm_sum E (cm_run E d0 (ops1 ++ OpReset :: ops2)) inp) =
+  fst (cm_sum E (cm_run E d0 ops2) inp).
+Proof. exact cmac_reset_fresh. Qed.
+Print Assumptions C12_cmac_reset.
+
+Theorem C12_cmac_size : forall (E : list N -> list N) (n : nat),
+  (forall x, length x = n -> length (E x) = n) ->
+  (forall x, length x = n -> wf_bytes x -> wf_bytes (E x)) ->
+  forall d0 ops, cm_new E n = Ok d0 -> cm_size (cm_run E d0 ops) = N.of_nat n.
+Proof. exact cmac_size. Qed.
+Print Assumptions C12_cmac_size.
+
+(* The hypotheses hold for FIPS 197 AES (any key) and FIPS 46-3 DES: AES-CMAC and DES-CMAC. *)
+Theorem C12_cmac_aes : forall key ops inp,
+  wf_bytes key ->
+  exists d0, cm_new (aes_cipher (aes_round_keys key)) 16 = Ok d0 /\
+    fst (cm_sum (aes_cipher (aes_round_keys key)) (cm_run (aes_cipher (aes_round_keys key)) d0 ops) inp)
+    = inp ++ cmac_aes key (written ops).
+Proof. exact cmac_aes_stream. Qed.
+Print Assumptions C12_cmac_aes.
+
+Theorem C12_cmac_des : forall key ops inp,
+  exists d0, cm_new (des_crypt (des_subkeys key)) 8 = Ok d0 /\
+    fst (cm_sum (des_crypt (des_subkeys key)) (cm_run (des_crypt (des_subkeys key)) d0 ops) inp)
+    = inp ++ cmac_des key (written ops).
+Proof. exact cmac_des_stream. Qed.
+Print Assumptions C12_cmac_des.
+
+(* ================================================================== *)
+(* PKCS#7                                                              *)
+
+(* Pad is RFC 5652 6.3 for every message and every block size 1..255; block size 0 is an error. *)
+Theorem C12_pkcs7_pad : forall m b, 1 <= b <= 255 -> pkcs7_pad m b = Ok (pkcs7_pad_spec b m).
+Proof. exact pad_spec. Qed.
+Print Assumptions C12_pkcs7_pad.
+
+Theorem C12_pkcs7_pad_zero : forall m, pkcs7_pad m 0 = Err.
+Proof. exact pad_zero. Qed.
+Print Assumptions C12_pkcs7_pad_zero.
+
+Theorem C12_pkcs7_pad_length : forall m b,
+  1 <= b -> lenN (pkcs7_pad_spec b m) mod b = 0 /\ lenN m < lenN (pkcs7_pad_spec b m) <= lenN m + b.
+Proof. exact pad_spec_length. Qed.
+Print Assumptions C12_pkcs7_pad_length.
+
+(* unpad (pad m b) = m for every message and every block size 1..255. *)
+Theorem C12_pkcs7_inverse : forall m b,
+  1 <= b <= 255 -> exists padded, pkcs7_pad m b = Ok padded /\ pkcs7_unpad padded = Ok m.
+Proof. exact unpad_pad. Qed.
+Print Assumptions C12_pkcs7_inverse.
+
+(* Unpad (the constant-time accumulator loop) returns m exactly when the buffer is m followed
+   by p bytes of value p, 1 <= p <= 255: every buffer that is not validly padded is rejected,
+   every validly padded one is accepted and exactly the padding is stripped. *)
+Theorem C12_pkcs7_rejects : forall buf m,
+  wf_bytes buf -> (pkcs7_unpad buf = Ok m <-> pkcs7_padded buf m).
+Proof. exact unpad_iff. Qed.
+Print Assumptions C12_pkcs7_rejects.
+
+Theorem C12_total_unpad : forall input, pkcs7_unpad input <> Panic.
+Proof. exact unpad_total. Qed.
+Print Assumptions C12_total_unpad.
+
+(* ================================================================== *)
+(* Group Policy Preferences                                            *)
+
+(* The key in the source (regenerated by go2coq on every run) is Microsoft's published key
+   4e9906e8fcb66cc9faf49310620ffee8f496e806cc057990209b09a433b66c1b. *)
+Theorem C12_gpp_key : c12_gppp_aes_key = ms_gpp_key.
+Proof. exact gppp_key_is_published. Qed.
+Print Assumptions C12_gpp_key.
+
+(* GPPPEncrypt, for every Go string s, is base64(AES-256-CBC_key,IV=0(PKCS7_16(UTF-16LE(runes of s))));
+   it never fails. *)
+Theorem C12_gpp_is_aes256cbc : forall s,
+  gppp_encrypt s =
+  Ok (b64_encode (aes_cbc_encrypt ms_gpp_key (zeros 16) (pkcs7_pad_spec 16 (utf16le_encode (go_runes s))))).
+Proof. exact gppp_encrypt_is_aes256cbc. Qed.
+Print Assumptions C12_gpp_is_aes256cbc.
+
+(* For every Unicode password (a list of scalar values, UTF-8 encoded as Go strings are) the
+   result is the cpassword of [MS-GPPREF]. *)
+Theorem C12_gpp_cpassword : forall cps,
+  Forall scalar_value cps -> gppp_encrypt (utf8_encode cps) = Ok (gpp_cpassword cps).
+Proof. exact gppp_encrypt_cpassword. Qed.
+Print Assumptions C12_gpp_cpassword.
+
+(* GPPPDecryptBytes succeeds exactly on a whole number of blocks whose AES-256-CBC decryption
+   (published key, zero IV) is validly PKCS#7-padded text of even length, and returns the UTF-8
+   form of that UTF-16LE text. *)
+Theorem C12_gpp_decrypt_is_aes256cbc : forall ct s,
+  wf_bytes ct ->
+  (gppp_decrypt_bytes ct = Ok s <->
+   lenN ct mod 16 = 0 /\
+   exists pt, pkcs7_padded (gpp_plain_padded ct) pt /\ lenN pt mod 2 = 0 /\
+              s = utf8_encode (utf16le_decode pt)).
+Proof. exact gppp_decrypt_bytes_is_aes256cbc. Qed.
+Print Assumptions C12_gpp_decrypt_is_aes256cbc.
+
+(* Encryption and decryption are mutual inverses, for every block cipher pair (enc, dec) with
+   dec k (enc k b) = b on blocks and every key of an AES size … *)
+Theorem C12_gpp_inverse_generic : forall (aes_enc aes_dec : list N -> list N -> list N) (key : list N),
+  key_size_ok key = true ->
+  (forall b, length b = 16%nat -> length (aes_enc key b) = 16%nat) ->
+  (forall b, wf_bytes b -> wf_bytes (aes_enc key b)) ->
+  (forall b, length b = 16%nat -> wf_bytes b -> aes_dec key (aes_enc key b) = b) ->
+  forall cps, Forall scalar_value cps ->
+  exists enc,
+    gppp_encrypt_with aes_enc key (utf8_encode cps) = Ok enc /\
+    gppp_decrypt_b64_with aes_dec key enc = Ok (utf8_encode cps) /\
+    exists ct, b64_decode enc = Some ct /\ gppp_decrypt_bytes_with aes_dec key ct = Ok (utf8_encode cps).
+Proof. exact gppp_roundtrip. Qed.
+Print Assumptions C12_gpp_inverse_generic.
+
+(* … in particular for FIPS 197 AES under the published key, given that the inverse cipher
+   inverts the cipher on 16-byte blocks (the one hypothesis that is not proved here: FIPS 197
+   5.3; checked on generated blocks by the ALGO differential run against crypto/aes). *)
+Theorem C12_gpp_inverse :
+  (forall b, length b = 16%nat -> wf_bytes b ->
+     aes_block_dec c12_gppp_aes_key (aes_block_enc c12_gppp_aes_key b) = b) ->
+  forall cps, Forall scalar_value cps ->
+  exists enc,
+    gppp_encrypt (utf8_encode cps) = Ok enc /\
+    gppp_decrypt_b64 enc = Ok (utf8_encode cps) /\
+    exists ct, b64_decode enc = Some ct /\ gppp_decrypt_bytes ct = Ok (utf8_encode cps).
+Proof. exact gppp_roundtrip_aes. Qed.
+Print Assumptions C12_gpp_inverse.
+
+(* Go's []rune conversion of a valid UTF-8 string is the RFC 3629 decoding. *)
+Theorem C12_go_runes : forall s cps, utf8_decode s = Some cps -> go_runes s = cps.
+Proof. exact go_runes_valid. Qed.
+Print Assumptions C12_go_runes.
+
+(* No input makes a decoding entry point panic (reused by C07). *)
+Theorem C12_total_gppp_decrypt_bytes : forall input, gppp_decrypt_bytes input <> Panic.
+Proof. exact gppp_decrypt_bytes_total. Qed.
+Print Assumptions C12_total_gppp_decrypt_bytes.
+
+Theorem C12_total_gppp_decrypt_b64 : forall input, gppp_decrypt_b64 input <> Panic.
+Proof. exact gppp_decrypt_b64_total. Qed.
+Print Assumptions C12_total_gppp_decrypt_b64.
+
+Theorem C12_total_gppp_encrypt : forall s, exists enc, gppp_encrypt s = Ok enc.
+Proof. exact gppp_encrypt_total. Qed.
+Print Assumptions C12_total_gppp_encrypt.
+
+(* ================================================================== *)
+(* Non-vacuity: hypotheses are satisfiable and the models compute the published vectors.   *)
+
+Open Scope string_scope.
+
+(* RC4: the classic vector Key / Plaintext -> BBF316E8D940AF0AD3, fed in three pieces *)
+Example C12_rc4_example :
+  match rc4go_new (hex "4b6579") with
+  | Ok st => fst (rc4go_stream st [hex "506c61"; []; hex "696e74657874"]) = hex "bbf316e8d940af0ad3"
+  | _ => False
+  end.
+Proof. vm_compute. reflexivity. Qed.
+
+(* CMAC: RFC 4493 example 3 (40 bytes) through the streaming model with AES-128, written in
+   three pieces with a Sum and a Reset before *)
+Example C12_cmac_example :
+  let E := aes_cipher (aes_round_keys (hex "2b7e151628aed2a6abf7158809cf4f3c")) in
+  match cm_new E 16 with
+  | Ok d0 =>
+      fst (cm_sum E (cm_run E d0 [OpWrite (hex "ffff"); OpSum []; OpReset;
+                                  OpWrite (hex "6bc1bee22e409f96e93d7e117393172aae");
+                                  OpSum (hex "00");
+                                  OpWrite (hex "2d8a571e03ac9c9eb76fac45af8e51");
+                                  OpWrite (hex "30c81c46a35ce411")]) (hex "abcd"))
+      = hex "abcd dfa66747de9ae63030ca32611497c827"
+  | _ => False
+  end.
+Proof. vm_compute. reflexivity. Qed.
+
+(* the CMAC hypotheses are met by DES (unconditionally) — and by AES, see C12_cmac_aes *)
+Example C12_cmac_hyps_des : forall key,
+  (forall x, length x = 8%nat -> length (des_crypt (des_subkeys key) x) = 8%nat) /\
+  (forall x, length x = 8%nat -> wf_bytes x -> wf_bytes (des_crypt (des_subkeys key) x)).
+Proof. intros key. split; intros; [apply Proofs.AlgoProofs.des_crypt_length | apply Proofs.AlgoProofs.des_crypt_wf]. Qed.
+
+(* PKCS#7 *)
+Example C12_pkcs7_example :
+  pkcs7_pad (hex "0102030405") 8 = Ok (hex "0102030405030303") /\
+  pkcs7_unpad (hex "0102030405030303") = Ok (hex "0102030405") /\
+  pkcs7_unpad (hex "0102030405030203") = Err /\
+  pkcs7_padded (hex "0102030405030303") (hex "0102030405").
+Proof.
+  repeat split; try (vm_compute; reflexivity).
+  exists 3%N. split; [lia | reflexivity].
+Qed.
+
+(* GPP: the test vector of the repository and the widely published cpassword example (stored
+   without base64 padding) *)
+Example C12_gpp_example :
+  gppp_encrypt (utf8_encode [80; 111; 100; 97; 108; 105; 114; 105; 117; 115]%N) (* "Podalirius" *)
+    = Ok (map (fun c => N.of_nat (Ascii.nat_of_ascii c))
+              (String.list_ascii_of_string "bdajdgpjZqolVYI3h2O2mp+JpxDuZd0xoi2M86z7JuI=")) /\
+  gppp_decrypt_b64 (map (fun c => N.of_nat (Ascii.nat_of_ascii c))
+                        (String.list_ascii_of_string "j1Uyj3Vx8TY9LtLZil2uAuZkFQA/4latT76ZwgdHdhw"))
+    = Ok (map (fun c => N.of_nat (Ascii.nat_of_ascii c)) (String.list_ascii_of_string "Local*P4ssword!")).
+Proof. split; vm_compute; reflexivity. Qed.
+
+(* the hypothesis of C12_gpp_inverse on concrete blocks, and the generic hypotheses on a trivial cipher *)
+Example C12_gpp_inverse_hyp_sample :
+  let k := c12_gppp_aes_key in
+  aes_block_dec k (aes_block_enc k (zeros 16)) = zeros 16 /\
+  aes_block_dec k (aes_block_enc k (hex "00112233445566778899aabbccddeeff")) = hex "00112233445566778899aabbccddeeff".
+Proof. split; vm_compute; reflexivity. Qed.
+
+Example C12_gpp_inverse_generic_hyps :
+  let enc := fun (_ b : list N) => b in
+  key_size_ok ms_gpp_key = true /\
+  (forall b, length b = 16%nat -> length (enc ms_gpp_key b) = 16%nat) /\
+  (forall b, wf_bytes b -> wf_bytes (enc ms_gpp_key b)) /\
+  (forall b, length b = 16%nat -> wf_bytes b -> enc ms_gpp_key (enc ms_gpp_key b) = b).
+Proof. cbv zeta. repeat split; auto. Qed.
